@@ -608,5 +608,39 @@ def run(ctx) -> None:
     from rules.rate_sync import check_rate_sync
     _n = check_rate_sync(ctx, 'W8', only_functions={'sync_interest_rate'})
     ctx.floor('W8', _n, 4, 'conversion assignments / sync functions of the rate family')
+    ctx.rule('W11', 'while the main writer holds the report open for writing, nothing that opens the same file again is called: the add-on and S-DAC-GT '
+                    'sections are appended only after the main text is flushed and closed (otherwise the buffered main text overwrites their start)')
+    from gxstat.callgraph import get_callgraph as _gcg
+    _cg = _gcg(ctx.repo)
+    _po = ctx.repo.method('Outputs', 'PrintOutputs', 'geophires_x/Outputs.py')
+    _n11 = 0
+    for _w in ast.walk(_po.node):
+        if not isinstance(_w, ast.With):
+            continue
+        _opens = [it.context_expr for it in _w.items if isinstance(it.context_expr, ast.Call) and (dotted_name(it.context_expr.func) or '') == 'open'
+                  and it.context_expr.args and 'output_file' in norm(it.context_expr.args[0])]
+        if not _opens:
+            continue
+        _n11 += 1
+        _bad = None
+        for _c in ast.walk(_w):
+            if not isinstance(_c, ast.Call) or any(_c is o for o in _opens):
+                continue
+            _d = dotted_name(_c.func) or ''
+            _last = _d.split('.')[-1]
+            # a callee that opens an output_file itself, directly or through the functions it calls (bounded by name resolution in src/)
+            _cands = [g for g in ctx.repo.all_functions() if g.name == _last and (g.cls is None or _last == 'PrintOutputs') and g is not _po]
+            if _last in ('write', 'format', 'join', 'append') or not _cands:
+                continue
+            _reach = list(_cg.reachable(_cands).values()) + _cands
+            if any(isinstance(x, ast.Call) and (dotted_name(x.func) or '') == 'open' and x.args and 'output_file' in norm(x.args[0])
+                   for g in _reach for x in ast.walk(g.node)):
+                _bad = _c
+                break
+        ctx.check(_bad is None, 'W11', 'Outputs.PrintOutputs/nothing-reopens-the-report-inside-the-write-block', f'{_po.module.rel}:{(_bad or _w).lineno}',
+                  f'`{norm(_bad)[:70] if _bad is not None else ""}` is called inside the `with open(self.output_file, "w")` block and (transitively) opens the '
+                  f'report again: what it appends is written before the main writer\'s buffered text is flushed, and that text then overwrites it',
+                  fact='appenders run after the with block')
+    ctx.floor('W11', _n11, 1, 'write blocks on the report file')
     ctx.undecided('format() rounding to the displayed precision', 'pint conversion numerics', 'AGS writer (not runnable offline): informational only')
     ctx.assume('the single pipeline prints after Calculate (C20 N1)')
